@@ -216,9 +216,12 @@ Definition USpec (n : nat) (U : updater) : Prop :=
 Definition Growth (c : ctx) (s s' : state) (P : list lentry -> Prop) : Prop :=
   forall w, fst c = Some w -> exists D, rlog (getn s' w) = rlog (getn s w) ++ D /\ P D.
 
+(* the running body statically depends on the node it reads *)
+Definition CtxDep (c : ctx) (j : nat) : Prop := forall w, fst c = Some w -> dep p w j.
+
 Definition RSpec (n : nat) (R : reader) : Prop :=
   forall m c j s stk t s' v,
-    j < n -> j < t -> effb j = false -> Inv stk t s -> ctx_ok stk c -> TopOK c s ->
+    j < n -> j < t -> effb j = false -> CtxDep c j -> Inv stk t s -> ctx_ok stk c -> TopOK c s ->
     R m c j s = (s', v) ->
     Inv stk t s' /\ TopOK c s' /\ PullRel (S j) stk (fst c) s s' /\
     (memob j = true -> st (getn s' j) = Clean /\ cache (getn s' j) = Some v) /\
